@@ -34,6 +34,21 @@ pub fn push_within_capacity<T, A: core::alloc::Allocator>(v: &mut Vec<T, A>, x: 
     }
 }
 
+/// companion of push_within_capacity for Vec::reserve (reached from extend_from_slice / io::Write for Vec)
+pub fn reserve_within_capacity<T, A: core::alloc::Allocator>(v: &mut Vec<T, A>, additional: usize) {
+    let room = v.capacity() - v.len();
+    kani::assert(room >= additional, "[cap] Vec::reserve beyond the capacity reserved by the code/harness");
+    kani::assume(room >= additional);
+}
+
+/// replaces std::io::copy in harnesses that exercise in-memory staging only: the temp-file arms of
+/// TempFileBuffer are ASSERTED unreachable there (a reachable call is a failed check), which removes
+/// the 8 KiB stack-buffer copy loop from the symbolic execution
+pub fn io_copy_unreachable<R: ?Sized + io::Read, W: ?Sized + io::Write>(_r: &mut R, _w: &mut W) -> io::Result<u64> {
+    kani::assert(false, "[inmemory] io::copy reached although the harness stages in memory");
+    Err(io::Error::from(io::ErrorKind::Other))
+}
+
 /// poll a future once with a no-op waker (the bigtools encode/process futures have no real
 /// suspension point once the channel is always ready)
 pub fn poll_once<F: Future>(f: F) -> Option<F::Output> {
@@ -59,9 +74,16 @@ pub mod env {
 
     // ---- kani mode: log of outputs of "spawned" tasks, in spawn order == send order -------------
     pub const LOG_CAP: usize = 8;
-    pub static mut SPAWNED: usize = 0;
-    pub static mut SENT: usize = 0;
-    pub static mut SLOTS: [usize; LOG_CAP] = [0; LOG_CAP];
+    // NOTE: never all-zero initial bytes in a mutable static (kani-compiler 0.68 may materialise an
+    // alloc-backed constant such as `Ok(())` by reading from a static with identical bytes): counters
+    // start at distinctive bases, slots hold distinctive patterns
+    const SPAWNED_BASE: usize = 0x5EED_0000_0000_0100;
+    const SENT_BASE: usize = 0x5EED_0000_0000_0200;
+    pub static mut SPAWNED_RAW: usize = SPAWNED_BASE;
+    pub static mut SENT_RAW: usize = SENT_BASE;
+    pub static mut SLOTS: [usize; LOG_CAP] = [0x51075_0001, 0x51075_0002, 0x51075_0003, 0x51075_0004, 0x51075_0005, 0x51075_0006, 0x51075_0007, 0x51075_0008];
+    fn spawned_n() -> usize { unsafe { SPAWNED_RAW - SPAWNED_BASE } }
+    fn sent_n() -> usize { unsafe { SENT_RAW - SENT_BASE } }
 
     /// stub for tokio::runtime::Handle::spawn: run the future to completion NOW (the bigtools encode
     /// tasks never suspend), box its output, and hand back the box pointer disguised as a JoinHandle.
@@ -81,7 +103,7 @@ pub mod env {
         };
         let p: *mut F::Output = Box::into_raw(Box::new(out));
         unsafe {
-            SPAWNED += 1;
+            SPAWNED_RAW += 1;
             core::mem::transmute_copy::<*mut F::Output, JoinHandle<F::Output>>(&p)
         }
     }
@@ -95,7 +117,7 @@ pub mod env {
     {
         core::mem::forget(future);
         unsafe {
-            SPAWNED += 1;
+            SPAWNED_RAW += 1;
             let p: usize = 8;
             core::mem::transmute_copy::<usize, JoinHandle<F::Output>>(&p)
         }
@@ -109,11 +131,11 @@ pub mod env {
     /// stub for Sender::start_send: FIFO into the harness log
     pub fn fake_start_send<T>(_s: &mut Sender<T>, msg: T) -> Result<(), SendError> {
         unsafe {
-            kani::assert(SENT < LOG_CAP, "[env] log capacity");
+            kani::assert(sent_n() < LOG_CAP, "[env] log capacity");
             // T is always Msg (a pointer-sized token) in these harnesses
             kani::assert(core::mem::size_of::<T>() == core::mem::size_of::<usize>(), "[env] token size");
-            SLOTS[SENT] = core::mem::transmute_copy::<T, usize>(&msg);
-            SENT += 1;
+            SLOTS[sent_n()] = core::mem::transmute_copy::<T, usize>(&msg);
+            SENT_RAW += 1;
         }
         core::mem::forget(msg);
         Ok(())
@@ -165,11 +187,23 @@ pub mod env {
                 &*(self.rt.handle() as *const Handle)
             }
         }
+        /// an OWNED handle for structs that store one (kani: uninitialised bits, never read because spawn
+        /// is stubbed, and the owner must be ManuallyDrop; native replay: a clone of the real handle)
+        pub fn handle_owned(&self) -> Handle {
+            #[cfg(not(verif_replay))]
+            unsafe {
+                core::ptr::read(self.handle.as_ptr())
+            }
+            #[cfg(verif_replay)]
+            {
+                self.rt.handle().clone()
+            }
+        }
         /// number of sections sent so far
         pub fn sent(&mut self) -> usize {
             #[cfg(not(verif_replay))]
-            unsafe {
-                SENT
+            {
+                sent_n()
             }
             #[cfg(verif_replay)]
             unsafe {
@@ -177,14 +211,14 @@ pub mod env {
                 while let Ok(Some(h)) = self.rx.try_next() {
                     self.pending.push(h);
                 }
-                SENT + self.pending.len() + self.taken
+                sent_n() + self.pending.len() + self.taken
             }
         }
         /// number of tasks spawned so far (native replay: every spawned task is also sent)
         pub fn spawned(&mut self) -> usize {
             #[cfg(not(verif_replay))]
-            unsafe {
-                SPAWNED
+            {
+                spawned_n()
             }
             #[cfg(verif_replay)]
             {
@@ -195,7 +229,7 @@ pub mod env {
         pub fn take(&mut self) -> Option<Out> {
             #[cfg(not(verif_replay))]
             unsafe {
-                if self.taken >= SENT {
+                if self.taken >= sent_n() {
                     return None;
                 }
                 let p = SLOTS[self.taken] as *mut Out;
@@ -265,12 +299,12 @@ pub mod vfile {
 /// substitution (`@sub`); kani::stub cannot be used here because kani-compiler 0.68 panics on the
 /// original generic bodies (`Option<&mut T>` constants).
 /// The model is the documented list contract for the operations bigtools uses: elements kept in list
-/// order in an inline array of CAP slots; a ListIndex is position+1 (0 = none) and is only valid until
+/// order in an inline array of CAP (= 4: two entries make at most three pieces) slots; a ListIndex is position+1 (0 = none) and is only valid until
 /// the next insertion/removal *before* it - which is how bigtools uses indices (walk forward with
 /// next_index; insert_after the current index, then stop). Capacity overflow is an assertion failure.
 /// `c08_indexlist_model_agrees` checks the model against the real IndexList on symbolic op sequences.
 pub mod ilist {
-    pub const CAP: usize = 6;
+    pub const CAP: usize = 4;
     #[derive(Clone, Copy, PartialEq, Eq)]
     pub struct ListIndex(u32);
     impl ListIndex {
